@@ -72,6 +72,8 @@ def _variant(args):
         r2 = Repo(repo.root, overrides={v["file"]: new_src}, base=repo)
         ctx = report.Ctx(r2, prop, "quick")
         mod.run(ctx)
+        from .cli import new_guard_rule
+        new_guard_rule(ctx, prop)
     except Exception as e:
         return ("variant", v["name"], "fail", f"analysis raised {type(e).__name__}: {e}")
     new = [o for o in ctx.violations() if o.key not in base_keys]
@@ -102,6 +104,9 @@ def _one(args):
         if kind == "fault":
             ctx.ALIGN_MAX = 10 ** 6     # the catalogue tests the rules themselves; the alignment gate (report.Ctx.bad) is tested by its own entries
         mod.run(ctx)
+        if kind != "fault":
+            from .cli import new_guard_rule
+            new_guard_rule(ctx, prop)
     except Exception as e:  # a variant that breaks the analysis is a failure of the checker
         if kind == "fault" and v.get("rule") == "ANALYSIS-ERROR":
             return (kind, v["name"], "ok", "analysis error as expected")
